@@ -14,7 +14,8 @@ import (
 // C05 — substructural discipline; C06 — mode independence and shift legality.
 // Both are implications: if Grits accepts, the reference must not reject for a reason of the class.
 
-var substructuralMutations = []string{"binder-to-scope", "case-payload-to-scope", "drop-statement", "dup-statement", "rename-binder",
+var substructuralMutations = []string{"binder-to-scope", "case-payload-to-scope", "binder-to-alias", "alias-to-live", "cut-reuse-self-as-name",
+	"binder-to-alias", "alias-to-live", "binder-to-alias", "alias-to-live", "binder-to-alias", "case-payload-to-scope", "binder-to-scope", "drop-statement", "dup-statement", "rename-binder",
 	"rename-use", "wait-to-drop", "insert-drop", "insert-split", "extra-provider", "swap-statements", "arity-minus", "drop-branch"}
 
 var modeMutations = []string{"param-mode", "ret-mode", "ann-mode", "prc-mode", "shift-words", "ann-mode", "ret-mode", "param-mode"}
